@@ -2,6 +2,8 @@
 three formats, with I/O fault injection at the disk seam; oracles of C14, C15, C16."""
 from __future__ import annotations
 
+import hashlib
+
 import os
 import shutil
 from pathlib import Path
@@ -252,8 +254,8 @@ class IO:
                 return out
             sim.guard("export_crash", f"{fmt} {out['exc']} {out.get('msg')}")
         if out["cls"] == "accepted":
-            if kind == "save":
-                sim.saves[fmt] = d
+            if kind == "save" and seam.fired is None:
+                self._remember(sim, fmt, d)
             if sim.active("C15") and subset is not None:
                 self._check_subset(sim, op, fmt, d, subset, out)
             if seam.fired is not None and sim.active("C14"):
@@ -415,7 +417,11 @@ class IO:
 
     def op_restart(self, sim, op):
         """Crash-restart: acknowledged save, drop the object, rebuild from the files only."""
-        if not self.exportable(sim, op.get("fmt")) or sim.restarts >= 2:
+        if sim.restarts >= 2:
+            return None
+        if op.get("late") and sim.saves.get("internal"):
+            return self._late_restart(sim, op)
+        if not self.exportable(sim, op.get("fmt")):
             return None
         fmt = op["fmt"]
         tr = sim.tracks
@@ -444,6 +450,70 @@ class IO:
             sim.stat("C14.eval")
         sim.adopt(new)
         sim.count("io_restart_" + ("geff" if fmt.startswith("geff") else fmt))
+        if fmt == "internal":
+            self._remember(sim, fmt, d, new)
+        out["cls"] = "accepted"
+        return out
+
+    # ---------------------------------------------------- durability of acknowledged saves
+    @staticmethod
+    def _files_digest(d: Path) -> str:
+        h = hashlib.sha1()
+        for f in sorted(p for p in Path(d).rglob("*") if p.is_file()):
+            h.update(str(f.relative_to(d)).encode())
+            h.update(f.read_bytes())
+        return h.hexdigest()
+
+    @staticmethod
+    def _fingerprint(tr):
+        return (observe.state_hash(observe.canon(tr)), observe.norm(tr.scale) if tr.scale is not None else None, tuple(sorted(tr.features)))
+
+    def _remember(self, sim, fmt, d, loaded=None):
+        """An acknowledged save in the internal format is what a crash later in the session
+        restores. Record the bytes on disk and what they load to right now (a witness load,
+        so that the later comparison is between two loads of the same files)."""
+        if fmt != "internal":
+            return
+        try:
+            w0 = loaded if loaded is not None else self._read(sim, fmt, d, with_pos=True)
+        except StepTimeout:
+            raise
+        except Exception:  # noqa: BLE001  (reported by reimport/restart, not here)
+            return
+        sim.saves[fmt] = {"dir": d, "digest": self._files_digest(d), "canon": self._fingerprint(w0), "step": sim.step_no}
+
+    def _late_restart(self, sim, op):
+        """Crash after edits that were never saved: drop the object and rebuild it from the
+        last acknowledged save. Only durable state survives - and it must be exactly what
+        was acknowledged: neither later edits of the live object nor later exports, failed
+        or not, may have touched those files."""
+        rec = sim.saves["internal"]
+        d = rec["dir"]
+        out = {"resolved": {"fmt": "internal", "late": True, "saved_at_step": rec["step"]}, "tags": ["internal", "late"]}
+        own = sim.active("C14")
+        if self._files_digest(d) != rec["digest"]:
+            if own:
+                sim.violate("C14", "C14.internal.durable", f"the files of the save acknowledged at step {rec['step']} changed on disk during later operations", op, out["tags"])
+                return out
+            sim.guard("restart_failed", "acknowledged save changed on disk")
+        try:
+            new = self._read(sim, "internal", d, with_pos=True)
+        except StepTimeout:
+            raise
+        except Exception as e:  # noqa: BLE001
+            if own:
+                sim.violate("C14", "C14.internal.durable", f"the save acknowledged at step {rec['step']} (loadable then) can no longer be loaded: {type(e).__name__}: {str(e)[:200]}", op, out["tags"], type(e).__name__)
+                return out
+            sim.guard("restart_failed", f"late internal {type(e).__name__} {str(e)[:120]}")
+        if self._fingerprint(new) != rec["canon"]:
+            if own:
+                sim.violate("C14", "C14.internal.durable", f"the save acknowledged at step {rec['step']} now loads to a different state than when it was acknowledged", op, out["tags"])
+                return out
+            sim.guard("restart_failed", "late internal loads differently")
+        if own:
+            sim.stat("C14.eval")
+        sim.adopt(new)
+        sim.count("io_restart_late")
         out["cls"] = "accepted"
         return out
 
